@@ -177,7 +177,7 @@ def chunks(seq, n):
 
 
 def run_families(ctx, prop, positions):
-    exprs = F.expression_family(ctx.tier) + F.group_family()
+    exprs = F.expression_family(ctx.tier) + F.group_family() + F.names_family()
     k = ctx.seed % 7
     exprs = exprs[k:] + exprs[:k]
     ctx.pmap(expr_task, [(prop, positions, ctx.tier, c) for c in chunks(exprs, 400)])
